@@ -163,7 +163,12 @@ def r2_who_writes_ownership(ctx):
                 fs = [e for e in s["p"]["pr"] if e[0] == "f"]
                 if fs and fs[-1][1] == "resource_ownership" and not body.key.endswith("Environment::new"):
                     ctx.violated(R, body.key + "|resource_ownership=", "ownership map replaced wholesale", body.loc(bi, si))
-    ctx.floor(R, "ownership writers", sum(len(v) for v in seen.values()), 3)
+    for fn_key, meths in allowed.items():
+        for m in meths:
+            if m not in seen.get(fn_key, set()):
+                ctx.violated(R, "%s|resource_ownership.%s|missing" % (fn_key, m),
+                             "%s no longer performs resource_ownership.%s: %s" % (fn_key.split("::")[-1], m,
+                             {"insert": "created/transferred handles are not recorded for their owner", "remove": "a closed resource stays in the ownership map (it can be closed or used again)"}[m]))
     # registration is control-dependent on Ok((Value::Resource(rid,_),_)) and records the requesting process
     hc = F.body(ENV + "::handle_effect_completion")
     fl = Flow(hc)
